@@ -164,6 +164,10 @@ def main(argv=None):
             engine_errors.append(("probes", "%s\n%s" % (e, traceback.format_exc()[-1500:])))
 
     known = [k for k in load_known() if k.get("property") == pid]
+    for r in results:
+        if r["status"] == "engine-error":
+            engine_errors.append((r["name"], r["meta"].get("error", "engine limit")))
+    results = [r for r in results if r["status"] != "engine-error"]
     obligations = [r for r in results if not r["meta"].get("cover")]
     covers = [r for r in results if r["meta"].get("cover")]
     discharged = [r for r in obligations if r["status"] == "unsat"]
